@@ -21,6 +21,7 @@ func init() { hx.Register("C09", Run) }
 
 // op tokens:
 //   N / NF        pool.NewStream (+ send the request); NF: a connect attempted by this call fails
+//   NT            pool.NewStream; a connect attempted by this call TIMES OUT (api.ConnectTimeout instead of ConnectFailed)
 //   NQ            like N, but the next operation follows at once (the harness does not wait for the request to arrive)
 //   R<s> / RC<s>  upstream answers stream s (RC: HTTP `Connection: close`)
 //   X<s>          upstream answers stream s with garbage
@@ -70,6 +71,8 @@ func (w *world) apply(op string) string {
 		res = w.newStream(false)
 	case op == "NF":
 		res = w.newStream(true)
+	case op == "NT":
+		res = w.newStreamTimeout()
 	case op == "NQ":
 		res = w.newStreamOpt(false, false)
 	case strings.HasPrefix(op, "RC"):
@@ -141,7 +144,7 @@ func (w *world) valid(op string) bool {
 		return n
 	}
 	switch {
-	case op == "N" || op == "NF" || op == "NQ" || op == "S" || op == "E+" || op == "Z":
+	case op == "N" || op == "NF" || op == "NT" || op == "NQ" || op == "S" || op == "E+" || op == "Z":
 		return true
 	case op == "E-":
 		return w.ext > 0
@@ -245,7 +248,8 @@ func gen(c *hx.Ctx, rng *hx.Rng, length int) func(w *world, step int) string {
 		add := func(op string, wt int) { cs = append(cs, cand{op, wt}) }
 		add("N", 27)
 		add("NQ", 4)
-		add("NF", 6)
+		add("NF", 5)
+		add("NT", 6)
 		for _, s := range live {
 			add(fmt.Sprintf("R%d", s), 14)
 			add(fmt.Sprintf("L%d", s), 6)
@@ -315,6 +319,10 @@ var boundary = [][]string{
 	{"N", "R0", "CR0", "N", "R1", "CL1", "N"},
 	{"N", "CL0", "N", "R1", "N", "R2"},
 	{"NF", "N", "NF", "R0", "NF", "N"},
+	{"NT", "NT", "N", "NT", "R0", "NT", "N"},
+	{"NT", "NT", "NT", "N", "N", "NF", "NT", "N"},
+	{"N", "NT", "L0", "NT", "NT", "N", "R1", "N"},
+	{"E+", "NT", "E-", "NT", "N", "CR0", "NT", "N"},
 	{"N", "N", "N", "R0", "R1", "N", "N", "N"},
 	{"N", "R0", "S", "N", "R1", "N", "R2"},
 	{"N", "S", "R0", "N", "R1"},
@@ -331,6 +339,13 @@ var boundary = [][]string{
 
 func Run(c *hx.Ctx) {
 	// replay of explicit cases: mosnh C09 <kind> <maxConn> <maxReq> <ops>
+	if len(c.Args) == 4 && c.Args[0] == "mux" {
+		mc, _ := strconv.Atoi(c.Args[1])
+		mr, _ := strconv.Atoi(c.Args[2])
+		ops, obs, w := muxRunOps(c, uint32(mc), uint32(mr), scripted(strings.Split(c.Args[3], ",")))
+		muxEmit(c, uint32(mc), uint32(mr), ops, obs, w)
+		return
+	}
 	if len(c.Args) == 4 {
 		mc, _ := strconv.Atoi(c.Args[1])
 		mr, _ := strconv.Atoi(c.Args[2])
@@ -370,6 +385,10 @@ func Run(c *hx.Ctx) {
 			}
 		}
 	}
+	// the multiplex pool (mux.go)
+	runMux(c)
+	// overlapping ResetStream / DestroyStream calls on one real BaseStream, every interleaving (once.go)
+	runOnce(c)
 	// concurrent phase (support): books equal the truth again once concurrent leases, resets and closes have settled
 	for i := 0; i < c.N(6, 40); i++ {
 		k := kinds[i%2]
